@@ -121,6 +121,11 @@ func (RequestsScenario) GenCase(r *rand.Rand, prop string) interface{} {
 		// none may be answered twice and none whose handler ran may go
 		// unanswered
 		c.MidStop = []int{20 + r.IntN(150)}
+	} else if chance(r, 12) {
+		// a restart: the first epoch is cut off, the second is served to
+		// quiescence and must answer every request again
+		c.Epochs = 2
+		c.MidStop = []int{10 + r.IntN(120), -1}
 	}
 	c.Workers = pick(r, 1, 2, 3, 4, 8, 32)
 	c.InCh = pick(r, 2, 4, 8, 1024, 1024)
@@ -200,8 +205,12 @@ func (RequestsScenario) GenCase(r *rand.Rand, prop string) interface{} {
 		if d.Handler != "" {
 			op.Script = genScript(r, d.Handler, c.Pats[d.PatID].Type, isHTTP, hasCID)
 		}
+		if c.Epochs > 1 {
+			op.Ep = r.IntN(c.Epochs)
+		}
 		peer.Ops = append(peer.Ops, op)
 	}
+	sortOpsByEpoch(peer.Ops)
 	c.Actors = append(c.Actors, peer)
 	// a producer to keep other groups busy
 	if chance(r, 50) {
@@ -234,7 +243,7 @@ func (RequestsScenario) Shrinks(c interface{}) []interface{} { return shrinkSvcC
 func (RequestsScenario) Execute(sim *sched.Sim, ci interface{}, prop string, race bool) *Outcome {
 	c := ci.(*SvcCase)
 	run := RunSvc(sim, c, race, func(e *Engine) {
-		e.OnQuiescent = func(ep int) { e.checkRequests() }
+		e.OnQuiescent = func(ep int) { e.checkRequests(ep) }
 	})
 	if !race {
 		run.CheckOrder()
@@ -253,15 +262,15 @@ func (RequestsScenario) Execute(sim *sched.Sim, ci interface{}, prop string, rac
 }
 
 // checkRequests is the C04/C05 oracle, evaluated at quiescence.
-func (e *Engine) checkRequests() {
+func (e *Engine) checkRequests(ep int) {
 	hs := handlerSets(e.Case)
-	pubs := e.Conn.PubsSnapshot()
+	pubs := e.Epochs[ep].Conn.PubsSnapshot()
 	byInbox := map[string][]*simconn.PubRec{}
 	for _, p := range pubs {
 		byInbox[p.Subject] = append(byInbox[p.Subject], p)
 	}
 	for _, s := range e.Subs {
-		if s == nil || s.Kind != "req" || s.Invoke == 0 {
+		if s == nil || s.Kind != "req" || s.Invoke == 0 || s.Epoch != ep {
 			continue
 		}
 		e.H.Evals++
